@@ -348,8 +348,9 @@ func fileKeys() []fileKey {
 		}
 		// structurally broken keys that DECLARE an approved algorithm: the JSON of a valid key with one
 		// member of its key material emptied or shortened. They are kept only when the JOSE library
-		// still parses them (so the file as a whole loads) and Validate - which the exhaustive table
-		// above decides - rejects them: loading such a key must fail like Validate does.
+		// still parses them (so the file as a whole loads) and its own structural check (jwk.Key.Validate,
+		// not the library under test) rejects them: jwkutil.Validate must reject them
+		// (TestStructurallyBrokenKeysRejected) and loading such a key must fail.
 		nbroken := 0
 		for i, fk := range append([]fileKey{}, fks...) {
 			if !fk.Valid || fk.Kid == "" || !strings.HasPrefix(fk.Kid, "good") {
@@ -377,8 +378,8 @@ func fileKeys() []fileKey {
 						undecodable = append(undecodable, fileKey{JSON: b, Kid: kid})
 						continue
 					}
-					if jwkutil.Validate(k) == nil {
-						continue // the library considers it fine (e.g. a shortened RSA exponent): not broken
+					if k.Validate() == nil {
+						continue // the JOSE library's own structural check passes (e.g. a shortened RSA exponent): not broken
 					}
 					fks = append(fks, fileKey{JSON: b, Kid: kid, Valid: false, Thumb: "-"})
 					nbroken++
@@ -416,6 +417,32 @@ func fileKeys() []fileKey {
 }
 
 var brokenKeys int
+
+var recBroken = ev.New("TestStructurallyBrokenKeysRejected", "every private and public key of the pool with ONE member of its key material (n, e, d, x, y) emptied or halved, declaring its approved algorithm, that the JOSE library still decodes and whose own structural check (jwk.Key.Validate) fails: jwkutil.Validate must reject it - whichever half of the key the defect is in; non-trivial = the defect is in the private member `d`; distinct by construction")
+
+func TestStructurallyBrokenKeysRejected(t *testing.T) {
+	ev.SkipIfReplayingOther(t)
+	n := 0
+	for _, fk := range fileKeys() {
+		if !strings.HasPrefix(fk.Kid, "broken-") {
+			continue
+		}
+		k, err := jwk.ParseKey(fk.JSON)
+		if err != nil {
+			t.Fatalf("harness: %s no longer parses: %v", fk.Kid, err)
+		}
+		if err := jwkutil.Validate(k); err == nil {
+			t.Fatalf("jwkutil.Validate accepts a structurally broken key (the JOSE library's own check says: %v): %s", k.Validate(), fk.JSON)
+		}
+		private := strings.Contains(fk.Kid, "-d-")
+		recBroken.Case(ev.HashStr(fk.Kid), private, fmt.Sprintf("private-member=%v", private))
+		n++
+	}
+	if n == 0 {
+		t.Fatalf("harness: no structurally broken key")
+	}
+	recBroken.Exhaustive()
+}
 
 // undecodable: JWK-shaped entries the JOSE library refuses to decode (a required member missing or
 // malformed). A key-set file holding one is not a usable key set.
